@@ -141,7 +141,9 @@ def run_probe(probe, a, rows):
     if probe == "tolist":
         return [obs(lambda: a)]
     if probe == "meta":
-        return [obs(lambda: len(a)), obs(lambda: a.size), obs(lambda: a.shape[0]), obs(lambda: a.shape[1]), obs(lambda: a.lengths)]
+        # the integer width of the row-length vector is not an observable any property fixes: values only
+        return [obs(lambda: int(len(a))), obs(lambda: int(a.size)), obs(lambda: int(a.shape[0])),
+                obs(lambda: np.asarray(a.shape[1]).tolist()), obs(lambda: np.asarray(a.lengths).tolist())]
     if probe == "int_rows":
         return [obs(lambda i=i: a[i]) for i in range(-n - 1, n + 1)]
     if probe == "elements":
